@@ -82,7 +82,7 @@ def obligations(tier):
         T += [('{"?":?,"?":[?]}', 0, 0, DUP | REORD | UTF8 | PRES | MULTI, 0),
               ('{"?":1,"?":2,"?":3}', REORD, 0, DUP | UTF8 | PRES, 0),
               ('{"?":1,"??":2,"?":3}', REORD | DUP | UTF8 | PRES, 0, 0, 0),
-              ('{"%EE??":[?],"%F0%90??":"?"}', REORD, 0, UTF8 | PRES, 0),
+              ('{"%EE%80?":[?],"%F0%90%80?":2}', REORD, 0, UTF8 | PRES, 0),
               ('["\\u????",{"\\uD8??\\uDC??":?}]', 0, 0, PRES | UTF8, 0),
               ('[?,{"?":"?"}]', 0, 0, ALL & ~(CINT | CFLT | MULTI | SPCOL | SPCOM), 0),
               ('{"a":{"?":1,"?":[{"?":?}]},"?":-0}', REORD | CINT, 0, DUP | CFLT, 2),
